@@ -80,3 +80,78 @@ impl core::fmt::Write for Sink {
         Ok(())
     }
 }
+
+// ---- call markers (C17): replace a heavy inherent function by a recorder returning a fresh value,
+// so "the forwarder calls exactly this function once with exactly these arguments and returns its
+// result" is decided without encoding the function body.
+macro_rules! markers {
+    ($m:ident, $P:ty) => {
+        pub mod $m {
+            pub static mut CALLS: u32 = 0;
+            pub static mut A: u64 = 0;
+            pub static mut B: u64 = 0;
+            pub static mut C: u64 = 0;
+            pub static mut R: u64 = 0;
+            pub static mut R2: u64 = 0;
+            #[cfg(kani)]
+            pub fn m1(x: $P) -> $P {
+                let r = <$P>::from_bits(kani::any());
+                unsafe {
+                    CALLS += 1;
+                    A = x.to_bits() as u64;
+                    R = r.to_bits() as u64;
+                }
+                r
+            }
+            #[cfg(kani)]
+            pub fn m2(x: $P, y: $P) -> $P {
+                let r = <$P>::from_bits(kani::any());
+                unsafe {
+                    CALLS += 1;
+                    A = x.to_bits() as u64;
+                    B = y.to_bits() as u64;
+                    R = r.to_bits() as u64;
+                }
+                r
+            }
+            #[cfg(kani)]
+            pub fn m3(x: $P, y: $P, z: $P) -> $P {
+                let r = <$P>::from_bits(kani::any());
+                unsafe {
+                    CALLS += 1;
+                    A = x.to_bits() as u64;
+                    B = y.to_bits() as u64;
+                    C = z.to_bits() as u64;
+                    R = r.to_bits() as u64;
+                }
+                r
+            }
+            #[cfg(kani)]
+            pub fn mi(x: $P, n: i32) -> $P {
+                let r = <$P>::from_bits(kani::any());
+                unsafe {
+                    CALLS += 1;
+                    A = x.to_bits() as u64;
+                    B = n as u32 as u64;
+                    R = r.to_bits() as u64;
+                }
+                r
+            }
+            #[cfg(kani)]
+            pub fn m12(x: $P) -> ($P, $P) {
+                let r = <$P>::from_bits(kani::any());
+                let r2 = <$P>::from_bits(kani::any());
+                unsafe {
+                    CALLS += 1;
+                    A = x.to_bits() as u64;
+                    R = r.to_bits() as u64;
+                    R2 = r2.to_bits() as u64;
+                }
+                (r, r2)
+            }
+        }
+    };
+}
+markers!(mp8, softposit::P8E0);
+markers!(mp16, softposit::P16E1);
+markers!(mp32, softposit::P32E2);
